@@ -182,7 +182,7 @@ def subchecks(tier):
     w = {"capacity": 1.0, "priorities": 0.3, "batching": 0.3, "self_loops": 0.7, "routing_objects": 0.4, "process_routing": 0.3, "discipline": 0.2,
          "cc_after": 0.15, "zero_service": 0.2, "server_priority": 0.1}
     prof = S.Profile(ALLOWED, weights=w, required=("capacity",), numeric="mixed", max_nodes=3, max_classes=2, plans=("until_deadlock",),
-                     horizon=(5.0, 10.0), budget=700, caps=(0, 0, 1, 1, 2), load="heavy")
+                     horizon=(5.0, 10.0), budget=700, caps=(0, 0, 1, 1, 2), load="heavy", stay=0.6)
     return [
         system_subcheck("system", prof, lambda spec: [DeadlockOracle()], nontrivial, classes=classes, spec_filter=post_filter,
                         n={"quick": 7200, "thorough": 40000}, rule="simulate_until_deadlock vs structural fixpoint oracle after every event"),
